@@ -128,3 +128,9 @@ func VerifV1BoundVertex(cells int, minOffset v3i.Vec, q, massPointSum v3.Vec, nu
 	solver := &dcQefSolver{massPointSum: massPointSum, numPoints: numPoints}
 	return dcBoundVertexPosition(d, leaf, q, solver)
 }
+
+// VerifV2LeastSquares calls the vertex solver of DualContouringV2 (leastSquares, hence solve3x3 and
+// determinant) on the given plane normals A and offsets b, with a fresh renderer value.
+func VerifV2LeastSquares(A []v3.Vec, b []float64) v3.Vec {
+	return (&DualContouringV2{qefFailedImplWarned: true}).leastSquares(A, b)
+}
